@@ -62,13 +62,15 @@ pub struct VStats {
     slow: u64,
     fast: u64,
     strings: u64,
+    /// reduced set of tails
+    pub light: bool,
     seen_class: Vec<bool>,
     seen_outcome: Vec<bool>,
 }
 
 impl Default for VStats {
     fn default() -> Self {
-        VStats { slow: 0, fast: 0, strings: 0, seen_class: vec![false; 1 << 16], seen_outcome: vec![false; 1 << 10] }
+        VStats { slow: 0, fast: 0, strings: 0, light: false, seen_class: vec![false; 1 << 16], seen_outcome: vec![false; 1 << 10] }
     }
 }
 
@@ -158,6 +160,13 @@ fn check_string(s: &[u8], rep: &mut Report, st: &mut VStats) {
     let mut buf = [0u8; 24];
     buf[..s.len()].copy_from_slice(s);
     check_buffer(&buf[..s.len()], rep, st, "none");
+    if st.light {
+        // thorough tier, longest 256-ary strings: the exact buffer and one long tail only
+        buf[s.len()..s.len() + 10].copy_from_slice(&TAIL10[1]);
+        check_buffer(&buf[..s.len() + 10], rep, st, "ten-bytes");
+        st.strings += 1;
+        return;
+    }
     for t in TAIL1 {
         buf[s.len()] = t;
         check_buffer(&buf[..s.len() + 1], rep, st, "one-byte");
@@ -170,25 +179,28 @@ fn check_string(s: &[u8], rep: &mut Report, st: &mut VStats) {
 }
 
 /// every string `prefix ++ w`, w over `alphabet`, |w| <= extra
-fn sweep(prefix: &[u8], alphabet: &[u8], extra: usize, rep: &mut Report) {
+fn sweep(prefix: &[u8], alphabet: &[u8], extra: usize, light_len: usize, rep: &mut Report) {
     let mut s: Vec<u8> = prefix.to_vec();
-    fn rec(s: &mut Vec<u8>, alphabet: &[u8], extra: usize, rep: &mut Report, st: &mut VStats) {
+    fn rec(s: &mut Vec<u8>, alphabet: &[u8], extra: usize, light_len: usize, rep: &mut Report, st: &mut VStats) {
+        st.light = s.len() >= light_len;
         check_string(s, rep, st);
         if extra == 0 {
             return;
         }
         for &a in alphabet {
             s.push(a);
-            rec(s, alphabet, extra - 1, rep, st);
+            rec(s, alphabet, extra - 1, light_len, rep, st);
             s.pop();
         }
     }
     let mut st = VStats::default();
-    rec(&mut s, alphabet, extra, rep, &mut st);
+    rec(&mut s, alphabet, extra, light_len, rep, &mut st);
     st.flush(rep);
 }
 
 pub struct Plan {
+    /// 256-ary strings of at least this length get the reduced set of tails
+    pub light_len: usize,
     pub full_len: usize,
     pub sym_alphabet: Vec<u8>,
     pub sym_len: usize,
@@ -196,9 +208,9 @@ pub struct Plan {
 
 pub fn plan(thorough: bool) -> Plan {
     if thorough {
-        Plan { full_len: 4, sym_alphabet: vec![0x00, 0x01, 0x02, 0x7e, 0x7f, 0x80, 0x81, 0xff], sym_len: 10 }
+        Plan { light_len: 4, full_len: 4, sym_alphabet: vec![0x00, 0x01, 0x7f, 0x80, 0x81, 0xfe, 0xff], sym_len: 10 }
     } else {
-        Plan { full_len: 3, sym_alphabet: vec![0x00, 0x01, 0x7f, 0x80, 0xff], sym_len: 10 }
+        Plan { light_len: usize::MAX, full_len: 3, sym_alphabet: vec![0x00, 0x01, 0x7f, 0x80, 0xff], sym_len: 10 }
     }
 }
 
@@ -242,7 +254,7 @@ pub fn run(thorough: bool, threads: usize, mk: &(dyn Fn() -> Report + Sync)) -> 
         }
         Item::Full(prefix) => {
             if prefix.len() == 1 {
-                sweep(prefix, &all, p.full_len - 1, rep);
+                sweep(prefix, &all, p.full_len - 1, p.light_len, rep);
             } else {
                 // thorough: the item is a first byte and a block of 16 second bytes
                 if prefix[1] == 0 {
@@ -251,7 +263,7 @@ pub fn run(thorough: bool, threads: usize, mk: &(dyn Fn() -> Report + Sync)) -> 
                     st.flush(rep);
                 }
                 for b in prefix[1]..=prefix[1] + 15 {
-                    sweep(&[prefix[0], b], &all, p.full_len - 2, rep);
+                    sweep(&[prefix[0], b], &all, p.full_len - 2, p.light_len, rep);
                 }
             }
         }
@@ -262,7 +274,7 @@ pub fn run(thorough: bool, threads: usize, mk: &(dyn Fn() -> Report + Sync)) -> 
             }
             st.flush(rep);
         }
-        Item::Sym(a, b) => sweep(&[*a, *b], &p.sym_alphabet, p.sym_len - 2, rep),
+        Item::Sym(a, b) => sweep(&[*a, *b], &p.sym_alphabet, p.sym_len - 2, usize::MAX, rep),
         Item::Encode => encode_checks(rep),
     })
 }
